@@ -9,22 +9,57 @@ import vp
 DL = "(fun d : N => if N.eqb (N.modulo d 4) 3 then None else Some (Z.of_N (N.div d 4)))"
 
 
+def alternatives(labels):
+    """A `RACE <label>` entry was issued while a timer may have been ready: the observed fires that
+    follow it (up to the next LQuiet) may have happened before or after it. Returns every ordering."""
+    alts = [[]]
+    i = 0
+    while i < len(labels):
+        l = labels[i]
+        if l.startswith("RACE "):
+            add = l[5:]
+            j = i + 1
+            fires = []
+            while j < len(labels) and (labels[j].startswith("LFire") or labels[j].startswith("LDrop")):
+                fires.append(labels[j]); j += 1
+            new = []
+            for a in alts:
+                for k in range(len(fires) + 1):
+                    new.append(a + fires[:k] + [add] + fires[k:])
+            alts = new[:64]
+            i = j
+        else:
+            for a in alts:
+                a.append(l)
+            i += 1
+    return alts
+
+
 def cases_v(hs):
     rows = []
     for h in hs:
-        rows.append("(%d%%nat, [%s])" % (h["id"], "; ".join(h["labels"])))
+        alts = alternatives(h["labels"])
+        rows.append("(%d%%nat, [%s])" % (h["id"], "; ".join("[" + "; ".join(a) + "]" for a in alts)))
     return """From Coq Require Import List ZArith NArith Bool.
 From Charon Require Import Stores.Deadliner.
 Import ListNotations.
 Local Open Scope N_scope.
 Definition dlf := %s.
-Definition cases : list (nat * list label) := [
+(* each case: the admissible orderings of one observed history (one, unless an Add raced a ready timer) *)
+Definition cases : list (nat * list (list label)) := [
 %s
 ].
+Fixpoint all_some (f : list label -> option nat) (alts : list (list label)) : option nat :=
+  match alts with
+  | [] => None
+  | [a] => f a
+  | a :: r => match f a with None => None | Some i => match all_some f r with None => None | Some _ => Some i end end
+  end.
+(* a history is rejected / violates the monitor only if every admissible ordering does *)
 Definition rejects := Eval vm_compute in
-  flat_map (fun c => match first_reject dlf false init (snd c) 0 with Some i => [(fst c, i)] | None => [] end) cases.
+  flat_map (fun c => match all_some (fun a => first_reject dlf false init a 0) (snd c) with Some i => [(fst c, i)] | None => [] end) cases.
 Definition monitor_hits := Eval vm_compute in
-  flat_map (fun c => match first_violation dlf ginit (snd c) 0 with Some i => [(fst c, i)] | None => [] end) cases.
+  flat_map (fun c => match all_some (fun a => first_violation dlf ginit a 0) (snd c) with Some i => [(fst c, i)] | None => [] end) cases.
 Print rejects.
 Print monitor_hits.
 """ % (DL, ";\n".join(rows))
@@ -56,7 +91,7 @@ def main():
             seen.add(vp.digest(h["labels"]))
     R.coverage["distinct_nontrivial"] = len(seen)
     R.coverage["rule"] = ("histories of add/advance/read operations against core.NewDeadlinerForT with a fake clock in a synctest bubble "
-                          "(kinds: corpus, random, burst = many duties on one deadline with a late consumer, edge = adds at/around the deadline instant and re-adds after the report); "
+                          "(kinds: corpus, random, race = an Add issued while a timer is ready and unserved (both orders admissible), burst = many duties on one deadline with a late consumer, edge = adds at/around the deadline instant and re-adds after the report); "
                           "non-trivial = at least one report happened and at least one add was refused or repeated; distinct by hash of the observed label sequence")
     kinds = {}
     nlabels = 0
@@ -76,9 +111,10 @@ def main():
         hits = pairs(vp.parse_marked(out, "monitor_hits"))
         for cid, idx in hits:
             h = byid[cid]
-            lab = h["labels"][idx] if idx < len(h["labels"]) else "?"
+            labs = alternatives(h["labels"])[0]
+            lab = labs[idx] if idx < len(labs) else "?"
             key = "trace-monitor"
-            if lab.startswith("LFire") and lab in h["labels"][:idx]:
+            if lab.startswith("LFire") and lab in labs[:idx]:
                 key = "F4:reported-twice"
             R.violation(key, "observed trace violates the C16 monitor at label %d (%s)" % (idx, lab),
                         {"script": h["script"], "labels": h["labels"], "index": idx,
@@ -88,7 +124,8 @@ def main():
             if cid in hit_ids:
                 continue
             h = byid[cid]
-            R.broke("correspondence:Deadliner model rejects observed trace %d at label %d (%s)" % (cid, idx, h["labels"][idx] if idx < len(h["labels"]) else "?"),
+            labs = alternatives(h["labels"])[0]
+            R.broke("correspondence:Deadliner model rejects observed trace %d at label %d (%s)" % (cid, idx, labs[idx] if idx < len(labs) else "?"),
                     json.dumps({"script": h["script"], "labels": h["labels"]}))
     R.coverage["traces_validated_against_impl"] = len(hs)
     R.finish()
